@@ -199,7 +199,11 @@ def parsePres (j : Json) : Pres :=
     jwtNonce := jStr j "jwt", ldErr := jBool j "lderr", challenge := jStr j "challenge", nonce := jStr j "nonce" }
 
 def parseForm (j : Json) : Form :=
-  if jStr j "t" == "response" then
+  if jStr j "t" == "reqobj" then .reqObj { id := jStr j "id", subject := jStr j "subject", post := jBool j "post" }
+  else if jStr j "t" == "landing" then .landing (jStr j "token")
+  else if jStr j "t" == "dpop" then
+    .dpop { parses := !jBool j "badParse", matchOk := !jBool j "badMatch", athPresent := !jBool j "noAth", athOk := !jBool j "badAth", jti := jStr j "jti" }
+  else if jStr j "t" == "response" then
     .response { state := optStr j "state", vpToken := (if jHas j "vp" then some ((jArr j "vp").map parsePres) else none),
                 stateKnown := !jBool j "unknownState", tenantOk := !jBool j "wrongTenant" }
   else
